@@ -12,9 +12,11 @@ package reader
 //@ spec be64(b []byte, p mathint) mathint = be32(b, p)*4294967296 + be32(b, p+4)
 
 //@ func NewReader
+//@   names b _
 //@   ensures result != nil && result.base == b && result.data == b && result.count == 0 && inv(result)
 
 //@ func (*Reader).Uint8
+//@   names r _ _ d
 //@   requires inv(r)
 //@   ensures inv(r) && r.base == old(r.base)
 //@   ensures old(len(r.data)) >= 1 ==> err == nil && result == be8(old(r.base), old(r.count)) && r.count == old(r.count) + 1
@@ -22,6 +24,7 @@ package reader
 //@   modifies r.data, r.count
 
 //@ func (*Reader).Uint16
+//@   names r _ _ d
 //@   requires inv(r)
 //@   ensures inv(r) && r.base == old(r.base)
 //@   ensures old(len(r.data)) >= 2 ==> err == nil && result == be16(old(r.base), old(r.count)) && r.count == old(r.count) + 2
@@ -29,6 +32,7 @@ package reader
 //@   modifies r.data, r.count
 
 //@ func (*Reader).Uint32
+//@   names r _ _ d
 //@   requires inv(r)
 //@   ensures inv(r) && r.base == old(r.base)
 //@   ensures old(len(r.data)) >= 4 ==> err == nil && result == be32(old(r.base), old(r.count)) && r.count == old(r.count) + 4
@@ -36,6 +40,7 @@ package reader
 //@   modifies r.data, r.count
 
 //@ func (*Reader).Uint64
+//@   names r _ _ d
 //@   requires inv(r)
 //@   ensures inv(r) && r.base == old(r.base)
 //@   ensures old(len(r.data)) >= 8 ==> err == nil && result == be64(old(r.base), old(r.count)) && r.count == old(r.count) + 8
@@ -43,6 +48,7 @@ package reader
 //@   modifies r.data, r.count
 
 //@ func (*Reader).Read
+//@   names r n _ _ d
 //@   requires inv(r)
 //@   ensures inv(r) && r.base == old(r.base)
 //@   ensures 0 <= n && n <= old(len(r.data)) ==> err == nil && sameview(result, old(r.data)[:n]) && r.count == old(r.count) + n
@@ -50,24 +56,29 @@ package reader
 //@   modifies r.data, r.count
 
 //@ func (*Reader).Peek
+//@   names r n _ _
 //@   requires inv(r)
 //@   ensures 0 <= n && n <= len(r.data) ==> err == nil && sameview(result, r.data[:n])
 //@   ensures !(0 <= n && n <= len(r.data)) ==> err == errReader && len(result) == 0
 
 //@ func (*Reader).PeekUint16
+//@   names r res err b
 //@   requires inv(r)
 //@   ensures len(r.data) >= 2 ==> err == nil && res == be16(r.base, r.count)
 //@   ensures len(r.data) < 2 ==> err == errReader && res == 0
 
 //@ func (*Reader).Len
+//@   names r _
 //@   ensures result == len(r.data)
 
 //@ func (*Reader).advance
+//@   names r num
 //@   requires inv(r) && 0 <= num && num <= len(r.data)
 //@   ensures inv(r) && r.base == old(r.base) && r.count == old(r.count) + num && r.data == old(r.data)[num:]
 //@   modifies r.data, r.count
 
 //@ func (*Reader).ReadCount
+//@   names r _
 //@   ensures result == r.count
 
 //@ lemma accounting(r *Reader): r != nil && inv(r) ==> r.count + len(r.data) == len(r.base)
